@@ -364,7 +364,24 @@ def seam_triple(r, sp):
     return a, b, c
 
 
-TRIPLE_MODES = ["uniform", "uniform", "uniform", "mixed", "bound", "coincident", "ulp", "small", "small", "neg", "seam", "seam"]
+TRIPLE_MODES = ["uniform", "uniform", "uniform", "mixed", "bound", "coincident", "ulp", "small", "small", "neg", "seam", "seam",
+                "nonunit"]
+# quaternion scale factors that keep |norm - 1| < MAX_QUATERNION_NORM_ERROR = 1e-9 (satisfiesBounds) — the first three
+# push the squared norm below the clamp threshold 1 - 1e-9 (F27), the others do not
+NONUNIT_SCALES = [1 - 0.75e-9, 1 - 0.6e-9, 1 - 0.9e-9, 1 - 0.4e-9, 1 + 0.9e-9, 1 + 0.3e-9]
+
+
+def scale_so3(r, sp, st):
+    """every SO(3) leaf multiplied by a factor from NONUNIT_SCALES: still in bounds for the code, not unit"""
+    out = list(st)
+    i = 0
+    for p in prims(sp):
+        n = prim_n(p)
+        if p[0] == "so3":
+            f = r.choice(NONUNIT_SCALES)
+            out[i:i + n] = [x * f for x in out[i:i + n]]
+        i += n
+    return out
 
 
 def gen_triple(r, sp, mode):
@@ -389,6 +406,9 @@ def gen_triple(r, sp, mode):
         return (a, b, c)
     if mode == "seam":
         return seam_triple(r, sp)
+    if mode == "nonunit":
+        a = scale_so3(r, sp, gen_state(r, sp, "uniform"))
+        return (a, list(a), gen_state(r, sp, "uniform"))
     raise ValueError(mode)
 
 
@@ -674,7 +694,8 @@ def attribute(ck, hbin, sp, tr, law, idx):
     corresponding slices of the triple, each judged by its contribution weight·distance to the compound
     (same slack rule).  Returns [(unit kind, tags)]: tags narrow the finding class — SO(3) triangle:
     `within_clamp_bound` (defect ≤ 2·acos(1-1e-9) per unit weight); Klein positivity: `glued_boundary`
-    (u-values 0 and π: the two states are the same point of the bottle); car-like positivity: `within_car_eps`."""
+    (u-values 0 and π: the two states are the same point of the bottle); SO(3) self-distance:
+    `below_clamp_norm` (squared norm ≤ 1-1e-9 although the norm is within 1e-9 of 1); car-like positivity: `within_car_eps`."""
     us = units(sp)
     out = []
     i = 0
@@ -698,6 +719,9 @@ def attribute(ck, hbin, sp, tr, law, idx):
         tags = {}
         if law == "triangle" and usp[0] == "so3":
             tags["within_clamp_bound"] = bool(vs[0][2] <= scale * (2 * CLAMP_ANGLE + 1e-12))
+        if law == "self" and usp[0] == "so3":
+            q_ = sub[vs[0][1][0]]
+            tags["below_clamp_norm"] = bool(sum(x * x for x in q_) <= 1 - QERR + 1e-15)
         if law == "positive" and usp[0] == "klein":
             a_, b_ = sub[vs[0][1][0]], sub[vs[0][1][1]]
             tags["glued_boundary"] = bool(abs(abs(a_[0] - b_[0]) - PI) < 1e-12)
@@ -941,6 +965,7 @@ def run(ck):
     ck.rule = ("one case = one (space, triple of states); spaces: every shipped class with several parameterisations, "
                "random nested weighted compounds (depth <= 3), Dubins/Reeds-Shepp (implementation only); triples: uniform, "
                "bound/ulp-inside-bound, coincident, 1-ulp-apart, small moves (SO(3) rotations of 1e-6..1e-4 rad), q vs -q, "
+               "in-bounds non-unit quaternions (norm 1 ± <1e-9), "
                "seam-straddling; non-trivial = all three states satisfy the implementation's satisfiesBounds and are not all "
                "equalStates; distinct by space text + state bit patterns")
     ck.trusted += ["harness/spacedist.cpp (links libompl built from the current tree; no source hooks)",
